@@ -3,6 +3,7 @@ package metrics
 import (
 	"context"
 	"fmt"
+	"math"
 	"net/http"
 	"regexp"
 	"strings"
@@ -208,15 +209,38 @@ func (e *Extractor) doExtract(data []byte, headers http.Header, providerName str
 	return metrics
 }
 
+// saturatingInt reads an integer from a JSON value without wrapping around. gjson's Int() turns
+// a number beyond int64 into a negative value (or MinInt64 for floats such as 1e25), which made a
+// huge but positive token count or duration from a backend come out negative.
+func saturatingInt(result gjson.Result) int64 {
+	if result.Type != gjson.Number && result.Type != gjson.String {
+		return result.Int()
+	}
+	return saturatingFloatToInt(result.Float())
+}
+
+// saturatingFloatToInt converts with clamping instead of the undefined out-of-range conversion
+func saturatingFloatToInt(f float64) int64 {
+	switch {
+	case math.IsNaN(f):
+		return 0
+	case f >= math.MaxInt64:
+		return math.MaxInt64
+	case f <= math.MinInt64:
+		return math.MinInt64
+	}
+	return int64(f)
+}
+
 // mapFieldToMetrics maps extracted field values directly to metrics struct
 func (e *Extractor) mapFieldToMetrics(field string, result gjson.Result, metrics *domain.ProviderMetrics) {
 	switch field {
 	case "input_tokens":
-		metrics.InputTokens = util.SafeInt32(result.Int())
+		metrics.InputTokens = util.SafeInt32(saturatingInt(result))
 	case "output_tokens":
-		metrics.OutputTokens = util.SafeInt32(result.Int())
+		metrics.OutputTokens = util.SafeInt32(saturatingInt(result))
 	case "total_tokens":
-		metrics.TotalTokens = util.SafeInt32(result.Int())
+		metrics.TotalTokens = util.SafeInt32(saturatingInt(result))
 	case "model":
 		metrics.Model = result.String()
 	case "finish_reason":
@@ -224,17 +248,17 @@ func (e *Extractor) mapFieldToMetrics(field string, result gjson.Result, metrics
 	case "done", "is_complete":
 		metrics.IsComplete = result.Bool()
 	case "prompt_duration_ns", "prompt_eval_duration":
-		ms := result.Int() / 1_000_000
+		ms := saturatingInt(result) / 1_000_000
 		metrics.PromptMs = util.SafeInt32(ms)
 		metrics.TTFTMs = metrics.PromptMs // TTFT approximation
 	case "eval_duration_ns", "eval_duration":
-		ms := result.Int() / 1_000_000
+		ms := saturatingInt(result) / 1_000_000
 		metrics.GenerationMs = util.SafeInt32(ms)
 	case "total_duration_ns":
-		ms := result.Int() / 1_000_000
+		ms := saturatingInt(result) / 1_000_000
 		metrics.TotalMs = util.SafeInt32(ms)
 	case "load_duration_ns":
-		ms := result.Int() / 1_000_000
+		ms := saturatingInt(result) / 1_000_000
 		metrics.ModelLoadMs = util.SafeInt32(ms)
 	}
 }
@@ -276,11 +300,11 @@ func (e *Extractor) runCalculations(profileName string, values map[string]interf
 					case "tokens_per_second":
 						metrics.TokensPerSecond = util.SafeFloat32(val)
 					case "ttft_ms":
-						metrics.TTFTMs = util.SafeInt32(int64(val))
+						metrics.TTFTMs = util.SafeInt32(saturatingFloatToInt(val))
 					case "total_ms":
-						metrics.TotalMs = util.SafeInt32(int64(val))
+						metrics.TotalMs = util.SafeInt32(saturatingFloatToInt(val))
 					case "model_load_ms":
-						metrics.ModelLoadMs = util.SafeInt32(int64(val))
+						metrics.ModelLoadMs = util.SafeInt32(saturatingFloatToInt(val))
 					}
 				}
 			}
@@ -295,7 +319,7 @@ func (e *Extractor) runCalculations(profileName string, values map[string]interf
 
 	// Ensure total tokens is set if we have input and output
 	if metrics.TotalTokens == 0 && metrics.InputTokens > 0 && metrics.OutputTokens > 0 {
-		metrics.TotalTokens = metrics.InputTokens + metrics.OutputTokens
+		metrics.TotalTokens = util.SafeInt32(int64(metrics.InputTokens) + int64(metrics.OutputTokens))
 	}
 }
 
